@@ -9,8 +9,8 @@ TIERS = {
 }
 
 
-def gen(work, mode, out, n=0, lo=1, assign=1, ndocs=1, inp=None, timeout=3000):
-    e = {"MODE": mode, "OUT": out, "N": str(n), "LO": str(lo), "ASSIGN": str(assign), "NDOCS": str(ndocs), "IN": inp or out}
+def gen(work, mode, out, n=0, lo=1, assign=1, ndocs=1, inp=None, timeout=3000, links="all"):
+    e = {"MODE": mode, "OUT": out, "N": str(n), "LO": str(lo), "ASSIGN": str(assign), "NDOCS": str(ndocs), "IN": inp or out, "LINKS": links}
     r = tlc("gen/Gen_Eval.tla", "Gen.cfg", work, env=e, workers=1, timeout=timeout)
     if r.rc != 0 or not os.path.exists(out):
         raise ToolError("Gen_Eval %s failed:\n%s" % (mode, r.tail()))
@@ -72,9 +72,13 @@ def run(prop, tier, seed, work, ev):
         rejects += run_and_judge("sentences of %d..%d tokens x %d payload assignment(s) x %d documents" % (lo, n, assign, ndocs),
                                  c, work, ev, drv, docs=c + ".docs")
     c = work.path("chains.cases")
-    gen(work, "chains", c, n=t["chains"])
-    rejects += run_and_judge("operator chains: primary + every sequence of <= %d postfix operators x 3 nested documents" % t["chains"],
+    gen(work, "chains", c, n=3)
+    rejects += run_and_judge("operator chains: primary + every sequence of <= 3 links (17 kinds: postfix operators, pipes, hashes, filters with projections / '!', boolean and comparison links) x 4 nested documents x both name assignments",
                              c, work, ev, drv, docs=c + ".docs")
+    if t["chains"] > 3:
+        gen(work, "chains", c, n=t["chains"], links="core")
+        rejects += run_and_judge("operator chains: primary + every sequence of <= %d of the eight plain postfix operators x 4 nested documents x both name assignments" % t["chains"],
+                                 c, work, ev, drv, docs=c + ".docs")
     c = work.path("preds.cases")
     gen(work, "preds", c)
     rejects += run_and_judge("filter predicates that are chains themselves (projection then pipe / index / field; inner predicates true for null), also under '!' and followed by one more link",
